@@ -16,26 +16,6 @@ tvars == <<vars, l, hid, ok>>
 Ev(name) == l <= Len(Rows) /\ Rows[l].ev = name /\ l' = l + 1
 StampOf(r) == [v |-> r.v, c |-> r.c, d |-> {<<r.d[i][1], r.d[i][2]>> : i \in 1..Len(r.d)}]
 
-\* observable oracle on recorded data: r = the process record, iv = inputs, cv = configuration
-ObsOK(r, iv, cv) ==
-  LET ex(f) == iv[f] # NoVer IN
-  LET good(f) == ex(f) /\ iv[f] > 0 IN
-  LET stamp(s) == IF ~good(s) \/ (\E m \in Requires[s] : ~good(m)) THEN NoStamp
-                  ELSE [v |-> iv[s], c |-> cv, d |-> {<<m, iv[m]>> : m \in Requires[s]}] IN
-  /\ r.foreign_ok
-  /\ Len(r.stray) = 0
-  /\ \A s \in Sources :
-       /\ (ex(s) /\ stamp(s) # NoStamp => StampOf(r.out[s]) = stamp(s))
-       /\ (~ex(s) => StampOf(r.out[s]) = NoStamp)
-\* the model's notion of a fresh run agrees with the REAL fresh run (else the model/driver is wrong: tool error)
-FreshAgrees(r, iv, cv) ==
-  LET ex(f) == iv[f] # NoVer IN
-  LET good(f) == ex(f) /\ iv[f] > 0 IN
-  \A s \in Sources :
-     LET st == IF ~good(s) \/ (\E m \in Requires[s] : ~good(m)) THEN NoStamp
-               ELSE [v |-> iv[s], c |-> cv, d |-> {<<m, iv[m]>> : m \in Requires[s]}] IN
-     StampOf(r.fresh[s]) = st
-
 RECURSIVE NextReset(_)
 NextReset(k) == IF k > Len(Rows) THEN k ELSE IF Rows[k].ev = "reset" THEN k ELSE NextReset(k + 1)
 
